@@ -7,7 +7,7 @@ pub const FAMILIES: [&str; 19] = [
     "negzero", "tiechain", "rowconst",
 ];
 /// families that are valid input only for some methods (never drawn blindly)
-pub const SPECIAL_FAMILIES: [&str; 5] = ["rampdips", "maxmag", "hugechain", "subnormal", "star"];
+pub const SPECIAL_FAMILIES: [&str; 7] = ["rampdips", "maxmag", "hugechain", "subnormal", "star", "decgap", "hugeone"];
 
 /// sizes next to the powers of two at which word / block / narrow-integer shortcuts change behaviour
 pub const BOUNDARY_SIZES: [u64; 18] = [31, 32, 33, 63, 64, 65, 127, 128, 129, 131, 132, 135, 191, 192, 193, 255, 256, 257];
@@ -140,6 +140,22 @@ pub fn matrix_f64(rng: &mut Rng, n: usize, fam: &str, wide: bool) -> Vec<f64> {
             let top = if wide { f64::MAX } else { f32::MAX as f64 };
             let x: Vec<f64> = (0..n).map(|i| 0.9 * top * 1.25f64.powi(-(i as i32))).collect();
             for (i, j) in pairs(n) { v.push((x[i] - x[j]).abs()); }
+        }
+        "decgap" => {
+            // points on a line, in index order, with strictly decreasing gaps (small integers, exact
+            // in both widths, no ties between neighbours): the nearest neighbour of every point is the
+            // next one, so a nearest-neighbour chain started at 0 runs through all n points before
+            // the first merge and is then unwound from the far end
+            let mut x = vec![0.0f64; n];
+            for k in 1..n { x[k] = x[k - 1] + (2 * n - (k - 1)) as f64; }
+            for (i, j) in pairs(n) { v.push((x[j] - x[i]).abs()); }
+        }
+        "hugeone" => {
+            // ordinary entries and ONE entry whose square overflows (valid finite input; with Ward
+            // the last merge is reported at +inf, nothing panics)
+            let big = if wide { 1e200 } else { 1e30 };
+            for _ in 0..len { v.push(rng.unit() * 3.0 + 0.5); }
+            if len > 0 { let k = rng.below(len as u64) as usize; v[k] = big * (1.0 + rng.unit()); }
         }
         "rampdips" => {
             // points on a line with growing gaps, except a close pair every k-th point: the raw
@@ -373,7 +389,7 @@ pub fn history(rng: &mut Rng, thorough: bool) -> History {
             let (pn, plen) = prev_valid.unwrap();
             let n2 = match rng.below(5) { 0 => pn - 1, 1 => pn - 2, 2 => 2, 3 => rng.below(2), _ => pn + 1 };
             let v: Vec<f64> = (0..plen).map(|k| 1.0 + (k % 5) as f64 * 0.5).collect();
-            n = n2;
+            n = n2.min(maxn);
             calls.push(HistCall { algo, method, n: n2, bits: to_bits(&v, wide), kind: "malformed" });
         } else if r < 10 {
             // malformed shape: panics in the shape check
